@@ -40,6 +40,13 @@ class _SymbolicExpressionContainer(typing_extensions.Protocol[T_cov]):
         ...  # pragma: no cover
 
 
+class _Slot:
+    """Marks a position that ListWrapper.__setitem__ assigns to."""
+
+    def __init__(self, value: object):
+        self.value = value
+
+
 class ListWrapper(typing.MutableSequence[T]):
     def __init__(self, *args: typing.Iterable[T]):
         self._data: typing.List[T] = []
@@ -82,21 +89,46 @@ class ListWrapper(typing.MutableSequence[T]):
     ) -> None:
         if isinstance(i, slice):
             assert isinstance(v, typing.Iterable)
-            indices = range(*i.indices(len(self)))
             values = list(v)
         elif -len(self._data) <= i.__index__() < len(self._data):
-            indices = range(i.__index__(), i.__index__() + 1)
             values = [typing.cast(T, v)]
         else:
             raise IndexError("list assignment index out of range")
-        for index in indices:
-            self._remove(self._data[index])
-        for value in values:
-            self._add(value)
+
+        # Work out the resulting list before running any hook, so that an
+        # invalid assignment (an extended slice needs as many values as it has
+        # indices) fails without side effects. The new positions are marked by
+        # wrapping the assigned values.
+        slots = [_Slot(value) for value in values]
+        new_data: typing.List[typing.Union[T, _Slot]] = list(self._data)
         if isinstance(i, slice):
-            self._data[i] = values
+            new_data[i] = slots
         else:
-            self._data[i] = values[0]
+            new_data[i] = slots[0]
+
+        # A value is held only once: an assigned value that already is an
+        # element elsewhere in the list moves to its new position.
+        assigned = {id(value) for value in values}
+        placed: typing.Set[int] = set()
+        result: typing.List[T] = []
+        for item in new_data:
+            if isinstance(item, _Slot):
+                if id(item.value) not in placed:
+                    placed.add(id(item.value))
+                    result.append(typing.cast(T, item.value))
+            elif id(item) not in assigned:
+                result.append(item)
+
+        old_data = list(self._data)
+        kept = {id(value) for value in result}
+        for value in old_data:
+            if id(value) not in kept:
+                self._remove(value)
+        present = {id(value) for value in old_data}
+        for value in result:
+            if id(value) not in present:
+                self._add(value)
+        self._data[:] = result
 
     @typing.overload
     def __delitem__(self, i: int) -> None:
